@@ -6,7 +6,7 @@
    The model always answers for thickness >= 0 (Proofs/Thickline.v).  Statements only (proofs: Proofs/SrcExtents.v,
    Proofs/SrcLineJoin2.v). *)
 From EG Require Import Base.Prelude Base.Casts Model.Geometry Model.Style Model.Line Model.Thickline Model.Join.
-From EG Require Import Gen.SrcGeometry Gen.SrcThick Gen.SrcLineJoin2 Proofs.SrcExtents Proofs.SrcLineJoin2.
+From EG Require Import Gen.SrcGeometry Gen.SrcThick Gen.SrcLineJoin2 Proofs.SrcExtents Proofs.SrcLineJoin2 Proofs.SrcExtentsTotal.
 
 Theorem C07_src_extents_is_model : forall l t so r F,
   extents l t so = Some r -> (parallels_fuel l (sat_u32_to_i32 t) < F)%nat -> src_Line_extents F l t so = Some r.
@@ -21,6 +21,25 @@ Theorem C07_src_linejoin_from_points_is_model : forall start mid end_ w so j F,
   lj_from_points start mid end_ w so = Some j -> ext_fuel (L start mid) w F -> ext_fuel (L mid end_) w F ->
   src_LineJoin_from_points F start mid end_ w so = Some j.
 Proof. exact src_lj_from_points_eq. Qed.
+
+(* round 5: the other direction.  The model never answers None for widths up to 100000 (Proofs/JoinRange.v extents_within), so
+   there the generated definitions answer exactly the model's value for every sufficient fuel *)
+Theorem C07_src_extents_total : forall l w so, 0 <= w <= 100000 ->
+  exists r, extents l w so = Some r /\
+            forall F, (parallels_fuel l (sat_u32_to_i32 w) < F)%nat -> src_Line_extents F l w so = Some r.
+Proof. exact src_extents_total. Qed.
+Theorem C07_src_linejoin_start_total : forall start mid w so, 0 <= w <= 100000 ->
+  exists j, lj_start start mid w so = Some j /\
+            forall F, ext_fuel (L start mid) w F -> src_LineJoin_start F start mid w so = Some j.
+Proof. exact src_lj_start_total. Qed.
+Theorem C07_src_linejoin_end_total : forall mid end_ w so, 0 <= w <= 100000 ->
+  exists j, lj_end mid end_ w so = Some j /\
+            forall F, ext_fuel (L mid end_) w F -> src_LineJoin_end F mid end_ w so = Some j.
+Proof. exact src_lj_end_total. Qed.
+Theorem C07_src_linejoin_from_points_total : forall start mid end_ w so, 0 <= w <= 100000 ->
+  exists j, lj_from_points start mid end_ w so = Some j /\
+            forall F, ext_fuel (L start mid) w F -> ext_fuel (L mid end_) w F -> src_LineJoin_from_points F start mid end_ w so = Some j.
+Proof. exact src_lj_from_points_total. Qed.
 
 Example C07_src_extents_nonvacuous :
   src_Line_extents 40 (L (P 0 0) (P 10 0)) 3 SONone = Some (L (P 0 (-1)) (P 10 (-1)), L (P 0 1) (P 10 1)) /\
